@@ -31,6 +31,15 @@ def check(run, project):
                           what="with several input files / chunks only the last one is decoded")
     from .shared import reads_every_file
     reads_every_file(run, project, "T9", what="the decoder is fed a prefix of its source")
+    # T13 (= C15-F5): the decoder is fed every byte of its source exactly once also through the Auto front-end: the detector
+    # hands back the bytes it looked at, for every format it announces
+    from ..report import RuleView as _RV13
+    from . import c15 as _c15
+    from .. import ctx as _ctx
+    try:
+        _c15.f5(_RV13(run, "F5", "T13"), project, _ctx.layout(project))
+    except AnalysisError as ex:
+        run.info(f"T13: the front-ends' message cutting could not be followed ({ex}); not judged here (C15 reports it)")
     # T12: the lazy file source hands out BYTES whatever the file's mode: a text-mode file (sys.stdin, open(path)) is read
     # through its byte buffer
     from .shared import text_sources_unwrapped
